@@ -1,7 +1,8 @@
 //! A storage wrapper used by the actor-level and cluster-level monitors:
 //! records every write, can fail a call (bulk calls after n documents) and can
 //! "crash" inside a call (perform the inner write of the first n documents,
-//! then never return).
+//! then never return). Which documents of a partly failed bulk call were written rotates between
+//! the leading ones, the smallest ids, the trailing ones and every other one.
 use std::sync::atomic::{AtomicBool, AtomicI64, Ordering};
 use std::sync::Arc;
 
@@ -104,6 +105,30 @@ impl<I: Backing> HStore<I> {
         }
     }
 
+    /// Which `n` of the items of a bulk call that fails part-way were written: not always the first n
+    /// in request order - a store may work in key order, from the back, or skip around. Rotates with
+    /// the call counter: leading items / the n smallest ids / the trailing items / every other item.
+    fn partial_subset(&self, n: usize, ids: &[Key]) -> Vec<usize> {
+        let len = ids.len();
+        let n = n.min(len);
+        match self.ctl.calls.load(Ordering::SeqCst) % 4 {
+            0 => (0..n).collect(),
+            1 => {
+                let mut idx: Vec<usize> = (0..len).collect();
+                idx.sort_by_key(|i| ids[*i]);
+                let mut v: Vec<usize> = idx.into_iter().take(n).collect();
+                v.sort();
+                v
+            },
+            2 => (len - n..len).collect(),
+            _ => {
+                let mut v: Vec<usize> = (0..len).step_by(2).chain((1..len).step_by(2)).take(n).collect();
+                v.sort();
+                v
+            },
+        }
+    }
+
     fn record(&self, keyspace: &str, id: Key, ts: HLCTimestamp, data: Option<Vec<u8>>) {
         self.ctl.log.lock().push(Write { node: self.ctl.node, keyspace: keyspace.to_string(), id, ts, data });
     }
@@ -130,11 +155,12 @@ impl<I: Backing> Storage for HStore<I> {
         let (f, p) = self.take_mode();
         if f >= 0 || p >= 0 {
             let n = (f.max(p) as usize).min(keys.len());
-            self.inner.remove_tombstones(k, keys[..n].iter().copied()).await?;
+            let done: Vec<Key> = self.partial_subset(n, &keys).into_iter().map(|i| keys[i]).collect();
+            self.inner.remove_tombstones(k, done.iter().copied()).await?;
             if p >= 0 {
                 std::future::pending::<()>().await;
             }
-            return Err(BulkMutationError::new(I::injected_error(), keys[..n].to_vec()));
+            return Err(BulkMutationError::new(I::injected_error(), done));
         }
         self.inner.remove_tombstones(k, keys.into_iter()).await
     }
@@ -169,14 +195,16 @@ impl<I: Backing> Storage for HStore<I> {
         let (f, p) = self.take_mode();
         if f >= 0 || p >= 0 {
             let n = (f.max(p) as usize).min(docs.len());
-            for d in &docs[..n] {
+            let ids: Vec<Key> = docs.iter().map(|d| d.id()).collect();
+            let done: Vec<Document> = self.partial_subset(n, &ids).into_iter().map(|i| docs[i].clone()).collect();
+            for d in &done {
                 self.record(k, d.id(), d.last_updated(), Some(d.data().to_vec()));
             }
-            self.inner.multi_put(k, docs[..n].iter().cloned()).await?;
+            self.inner.multi_put(k, done.iter().cloned()).await?;
             if p >= 0 {
                 std::future::pending::<()>().await;
             }
-            return Err(BulkMutationError::new(I::injected_error(), docs[..n].iter().map(|d| d.id()).collect()));
+            return Err(BulkMutationError::new(I::injected_error(), done.iter().map(|d| d.id()).collect()));
         }
         for d in &docs {
             self.record(k, d.id(), d.last_updated(), Some(d.data().to_vec()));
@@ -206,14 +234,16 @@ impl<I: Backing> Storage for HStore<I> {
         let (f, p) = self.take_mode();
         if f >= 0 || p >= 0 {
             let n = (f.max(p) as usize).min(docs.len());
-            for d in &docs[..n] {
+            let ids: Vec<Key> = docs.iter().map(|d| d.id).collect();
+            let done: Vec<DocumentMetadata> = self.partial_subset(n, &ids).into_iter().map(|i| docs[i]).collect();
+            for d in &done {
                 self.record(k, d.id, d.last_updated, None);
             }
-            self.inner.mark_many_as_tombstone(k, docs[..n].iter().copied()).await?;
+            self.inner.mark_many_as_tombstone(k, done.iter().copied()).await?;
             if p >= 0 {
                 std::future::pending::<()>().await;
             }
-            return Err(BulkMutationError::new(I::injected_error(), docs[..n].iter().map(|d| d.id).collect()));
+            return Err(BulkMutationError::new(I::injected_error(), done.iter().map(|d| d.id).collect()));
         }
         for d in &docs {
             self.record(k, d.id, d.last_updated, None);
